@@ -22,6 +22,7 @@ case "$1" in
   C15) run python3-vt checks/c15.py ;;
   C16) run python3-vt checks/c16.py ;;
   C17) run python3-vt checks/c17.py ;;
+  C18) run python3-vt checks/c18.py ;;
   C19) run python3-vt checks/c19.py ;;
   C20) run python3-vt checks/c20.py ;;
   C12) run python3-vt checks/c12.py ;;
